@@ -29,9 +29,12 @@ What a C++ object is here
   statement, generic in the number type (`Float` in the driver, `ℚ` in the proofs).
 
 Abstractions (checked by the correspondence run where reachable, listed in notes/C18.md):
-* `timesCalled_` is `unsigned int`: the model counts modulo 2^32 (so the wrap-around is modelled);
-  `solutions_` (`size_t`) is a `Nat` (2^64 reported solutions are out of reach), but the
-  `(solutions - 1)` factor wraps as `size_t` does when the window is 0.
+* `timesCalled_` is `unsigned long long` since /repo 354f9f45d (it was `unsigned int`, finding F16):
+  the model counts modulo `Env.ctrMod`, which is `counterMod = 2^64` for the code as it is and
+  `oldCounterMod = 2^32` for the code before the fix (kept for the `iter_spec_old_fails` witness);
+  `maxCalls_` is still an `unsigned int` (`uintMod`).  `solutions_` (`size_t`) is a `Nat` (2^64
+  reported solutions are out of reach), but the `(solutions - 1)` factor wraps as `size_t` does when
+  the window is 0.
 * the problem definition's solution set is reduced to the list of `approximate_` flags; its top
   element (after `std::sort` with `PlannerSolution::operator<`, which ranks every exact solution
   before every approximate one) is approximate iff all are.
@@ -74,11 +77,23 @@ def Cond.impls : Cond → List Nat
 
 def upd {β : Type} (f : Nat → β) (i : Nat) (v : β) : Nat → β := fun j => if j = i then v else f j
 
+/-- 2^32, the modulus of `unsigned int` (the type of `maxCalls_`) -/
+def uintMod : Nat := 4294967296
+
+/-- 2^64: modulus of `timesCalled_` (`unsigned long long`) in the code as it is -/
+def counterMod : Nat := 18446744073709551616
+
+/-- 2^32: modulus of `timesCalled_` before /repo 354f9f45d, when it was an `unsigned int` -/
+def oldCounterMod : Nat := 4294967296
+
 structure Env where
   /-- `pred id k`: what the `k`-th invocation (0-based) of scripted predicate `id` returns -/
   pred : Nat → Nat → Bool
   /-- `clock k`: the `k`-th reading of `time::now()` -/
   clock : Nat → Int
+  /-- modulus of the iteration counter's type (a parameter, so that the 32-bit behaviour of the code
+  before the fix stays expressible: `{ env with ctrMod := oldCounterMod }`) -/
+  ctrMod : Nat := counterMod
 
 structure St where
   term : Nat → Bool := fun _ => false      -- `terminate_` per impl
@@ -93,9 +108,6 @@ structure St where
 approximate iff every stored solution is. -/
 def hasExact (solns : List Bool) : Bool := solns.any (fun approx => !approx)
 
-/-- 2^32, the modulus of `unsigned int` -/
-def uintMod : Nat := 4294967296
-
 /-- one call of a leaf's `fn_()` -/
 def callLeaf (env : Env) (i : Nat) (k : Leaf) (s : St) : Bool × St :=
   match k with
@@ -106,7 +118,7 @@ def callLeaf (env : Env) (i : Nat) (k : Leaf) (s : St) : Bool × St :=
   | .never => (false, { s with log := (i, false) :: s.log })
   | .iter max =>
     -- ++timesCalled_; return (timesCalled_ > maxCalls_);
-    let c := (s.cnt i + 1) % uintMod
+    let c := (s.cnt i + 1) % env.ctrMod
     let r := decide (c > max)
     (r, { s with cnt := upd s.cnt i c, log := (i, r) :: s.log })
   | .timed e =>
@@ -169,15 +181,15 @@ structure Itc where
   called : Nat := 0
 deriving Repr
 
-/-- `IterationTerminationCondition::eval()` -/
-def Itc.eval (o : Itc) : Bool × Itc :=
-  let c := (o.called + 1) % uintMod
+/-- `IterationTerminationCondition::eval()`; `m` is the modulus of the counter's type -/
+def Itc.eval (m : Nat) (o : Itc) : Bool × Itc :=
+  let c := (o.called + 1) % m
   (decide (c > o.max), { o with called := c })
 
 def Itc.reset (o : Itc) : Itc := { o with called := 0 }
 
-/-- `k` calls of the public `eval()` in a row, closed form (`Itc.spin_eq_iterate` in Proofs/Ptc) -/
-def Itc.spin (o : Itc) (k : Nat) : Itc := { o with called := (o.called + k) % uintMod }
+/-- `k` calls of the public `eval()` in a row, closed form (`Itc.spin_succ` in Proofs/Ptc) -/
+def Itc.spin (m : Nat) (o : Itc) (k : Nat) : Itc := { o with called := (o.called + k) % m }
 
 /-- `operator PlannerTerminationCondition()`: the lambda captures a *copy* of the object, so the new
 impl starts from the object's current counter and the object itself no longer moves with it. -/
